@@ -1,3 +1,4 @@
 //! Reference models (oracles). Nothing in here calls the code under test.
 pub mod deblock;
 pub mod yuv;
+pub mod recon;
